@@ -3,4 +3,5 @@ import Drv.Parse
 import Drv.RefAlgo
 import Drv.Exec
 import Drv.Gen
+import Drv.ScriptGen
 import Drv.Judge
